@@ -168,7 +168,29 @@ let first_diff (a : string) (b : string) : string =
 let no_codec = { lz4_compress = (fun b -> b); lz4_decompress = (fun _ _ -> None);
                  snap_compress = (fun _ -> None); snap_decompress = (fun _ -> None) }
 
+(* L cases: only the sizes are observed.  The model's sizes come from batch_body_len /
+   header_len_field (C09_len32_batch ties them to encode_request); the property is
+   "length field = body size"; its failures on bodies >= 4 GiB are the known class. *)
+let verdict_len n t impl =
+  match impl with
+  | ["skipped"] -> "ok skipped-not-enough-memory"
+  | ["len"; b; f] ->
+    let b = n_of_hex b and f = n_of_hex f in
+    let mb = batch_body_len (n_of_hex n) (n_of_hex t) in
+    let mf = header_len_field mb in
+    if f = b then (if b = mb && f = mf then "ok" else "diff model-body=" ^ hex_of_n mb ^ " model-field=" ^ hex_of_n mf)
+    else
+      "viol " ^ (if len32_class b then "class=frame-len32-wrap " else "")
+      ^ Printf.sprintf "length-field=%s body-size=%s model-field=%s model-body=%s" (hex_of_n f) (hex_of_n b)
+        (hex_of_n mf) (hex_of_n mb)
+  | "err" :: _ -> "diff model=ok impl-refused"
+  | ["panic"] -> "diff impl-panic"
+  | _ -> "error bad-impl-output"
+
 let verdict case impl =
+  match case with
+  | ["L"; n; t] -> verdict_len n t impl
+  | _ ->
   let comp = comp_of (List.nth case 1) in
   let tr = (List.nth case 2 = "1") in
   let r = request_of case impl in
